@@ -345,26 +345,32 @@ def _recompute(F):
 
 def flatten(P, vocab=None):
     """Inline every function whose name is outside the vocabulary into its callers.
-    Returns {helper name: number of call sites spliced}."""
+    Returns {helper name: number of call sites spliced}.  Helpers are identified by their defining file and name
+    (two files may each extract a static helper of the same name)."""
     vocab = load_vocabulary() if vocab is None else vocab
     if vocab is None:
         return {}
     new = {}
     for F in P.functions.values():
-        if F.name not in vocab and F.blocks and len(P.by_name.get(F.name, [])) == 1:
-            new[F.name] = F
+        if F.name not in vocab and F.blocks:
+            new[F.key] = F
     if not new:
         return {}
     taken = _address_taken(P)
-    variadic = set(n for n, F in new.items()
-                   if any(nd and (nd.get("k") == "vaarg" or (nd.get("k") == "call" and "va_start" in (nd.get("fn") or "")))
-                          for nd in F.nodes))
-    cand = {n: F for n, F in new.items() if n not in taken and n not in variadic}
-    # call relation among candidates; drop recursive ones
+    cand = {k: F for k, F in new.items() if F.name not in taken and
+            not any(nd and (nd.get("k") == "vaarg" or (nd.get("k") == "call" and "va_start" in (nd.get("fn") or "")))
+                    for nd in F.nodes)}
+
+    def target(F, nd):
+        if nd.get("k") != "call" or not nd.get("fn") or nd["fn"] in vocab:
+            return None
+        G = P.resolve_call(F, nd)
+        return G.key if G is not None and G.key in cand else None
+
     def callees(F):
-        return set(nd["fn"] for b in F.blocks.values() for i in b.elems
-                   for nd in [F.nodes[i]] if nd.get("k") == "call" and nd.get("fn") in cand)
-    graph = {n: callees(F) for n, F in cand.items()}
+        return set(t for b in F.blocks.values() for i in b.elems for t in [target(F, F.nodes[i])] if t)
+    graph = {k: callees(F) for k, F in cand.items()}
+
     def reaches(a, b, seen=None):
         seen = seen or set()
         for c in graph.get(a, ()):
@@ -375,34 +381,34 @@ def flatten(P, vocab=None):
                 if reaches(c, b, seen):
                     return True
         return False
-    for n in list(cand):
-        if reaches(n, n):
-            del cand[n]
-    graph = {n: set(c for c in cs if c in cand) for n, cs in graph.items() if n in cand}
-    # call-site counts (cost guard)
-    sites = {n: 0 for n in cand}
+    for k in list(cand):
+        if reaches(k, k):
+            del cand[k]
+    graph = {k: set(c for c in cs if c in cand) for k, cs in graph.items() if k in cand}
+    sites = {k: 0 for k in cand}
     for F in P.functions.values():
         for b in F.blocks.values():
             for i in b.elems:
-                nd = F.nodes[i]
-                if nd.get("k") == "call" and nd.get("fn") in sites:
-                    sites[nd["fn"]] += 1
-    for n in list(cand):
-        if len(cand[n].blocks) * max(1, sites[n]) > MAX_COST:
-            del cand[n]
+                t = target(F, F.nodes[i])
+                if t in sites:
+                    sites[t] += 1
+    for k in list(cand):
+        if len(cand[k].blocks) * max(1, sites[k]) > MAX_COST:
+            del cand[k]
     order = []
     done = set()
-    def visit(n):
-        if n in done:
+
+    def visit(k):
+        if k in done:
             return
-        done.add(n)
-        for c in sorted(graph.get(n, ())):
+        done.add(k)
+        for c in sorted(graph.get(k, ())):
             if c in cand:
                 visit(c)
-        order.append(n)
-    for n in sorted(cand):
-        visit(n)
-    spliced = {n: 0 for n in cand}
+        order.append(k)
+    for k in sorted(cand):
+        visit(k)
+    spliced = {cand[k].name: 0 for k in cand}
 
     def flatten_fn(F):
         k = 0
@@ -413,11 +419,11 @@ def flatten(P, vocab=None):
             for bid in sorted(F.blocks):
                 B = F.blocks[bid]
                 for i in B.elems:
-                    nd = F.nodes[i]
-                    if nd.get("k") == "call" and nd.get("fn") in cand and nd["fn"] != F.name:
+                    t = target(F, F.nodes[i])
+                    if t is not None and t in cand and t != F.key:
                         k += 1
-                        inline_call(F, bid, i, cand[nd["fn"]], k)
-                        spliced[nd["fn"]] += 1
+                        inline_call(F, bid, i, cand[t], k)
+                        spliced[cand[t].name] += 1
                         progress = touched = True
                         break
                 if progress:
@@ -426,17 +432,84 @@ def flatten(P, vocab=None):
             _recompute(F)
         return touched
 
-    for n in order:
-        flatten_fn(cand[n])
+    for k in order:
+        flatten_fn(cand[k])
     for F in list(P.functions.values()):
-        if F.name in cand:
+        if F.key in cand:
             continue
         flatten_fn(F)
-    for n, F in cand.items():
+    for k, F in cand.items():
         del P.functions[F.key]
-        P.by_name[n] = [x for x in P.by_name[n] if x is not F]
-        if not P.by_name[n]:
-            del P.by_name[n]
+        P.by_name[F.name] = [x for x in P.by_name[F.name] if x is not F]
+        if not P.by_name[F.name]:
+            del P.by_name[F.name]
     P._callers = None
     P.inlined = spliced
     return spliced
+
+
+# ---------------------------------------------------------------------------
+# flattened view of one function: file-local static helpers spliced in (on a copy)
+
+def clone_function(F):
+    import copy as _copy
+    G = _copy.copy(F)
+    G.nodes = [(_copy.deepcopy(nd) if nd is not None else None) for nd in F.nodes]
+    G.blocks = {}
+    for bid, B in F.blocks.items():
+        nb = Block({"id": B.id, "e": [], "s": []})
+        for attr in Block.__slots__:
+            v = getattr(B, attr)
+            setattr(nb, attr, list(v) if isinstance(v, list) else v)
+        G.blocks[bid] = nb
+    G._parent = None
+    G._render = {}
+    for attr in ("_dom", "_pdom0", "_pdom1", "_reach", "_posmap", "_rdef", "_rdefs"):
+        G.__dict__.pop(attr, None)
+    return G
+
+
+def flat_copy(P, F, max_depth=3):
+    """Copy of F in which every call to a static function of the same file is replaced by the callee's body
+    (transitively, bounded).  Rules that reason about what a routine does -- rather than about which helper it
+    delegates to -- ask for this view, so that moving code into (or reusing) a file-local helper changes nothing."""
+    cache = P.__dict__.setdefault("_flat", {})
+    if F.key in cache:
+        return cache[F.key]
+
+    def inlinable(G):
+        return G is not None and G.blocks and G.static and G.file == F.file and G.name != F.name and \
+            not any(nd and nd.get("k") == "vaarg" for nd in G.nodes)
+    if not any(inlinable(P.resolve_call(F, F.nodes[i])) for _b, i in F.calls() if F.nodes[i].get("fn")):
+        cache[F.key] = F
+        return F
+    C = clone_function(F)
+    k = 0
+    budget = 40
+    depth_of = {}           # call node id -> nesting depth of the splice that introduced it
+    progress = True
+    while progress and budget > 0:
+        progress = False
+        for bid in sorted(C.blocks):
+            for i in C.blocks[bid].elems:
+                nd = C.nodes[i]
+                if nd.get("k") != "call" or not nd.get("fn"):
+                    continue
+                G = P.resolve_call(F, nd)
+                d = depth_of.get(i, 0)
+                if not inlinable(G) or d >= max_depth:
+                    continue
+                k += 1
+                budget -= 1
+                before = len(C.nodes)
+                inline_call(C, bid, i, G, 100 + k)
+                for j in range(before, len(C.nodes)):
+                    if C.nodes[j] and C.nodes[j].get("k") == "call":
+                        depth_of[j] = d + 1
+                progress = True
+                break
+            if progress:
+                break
+    _recompute(C)
+    cache[F.key] = C
+    return C
